@@ -21,11 +21,23 @@ func (fx *FnExec) calleeContract(cc *ssa.CallCommon) (*Contract, string) {
 		return fx.e.contracts[k], k
 	}
 	if fn := cc.StaticCallee(); fn != nil {
-		if fn.Object() == nil {
-			return nil, fn.String()
-		}
-		k := funcKeyOf(fn.Object().(*types.Func))
+		k := keyOfFunction(fn)
 		return fx.e.contracts[k], k
+	}
+	if n, ok := unalias(cc.Value.Type()).(*types.Named); ok && n.Obj().Pkg() != nil {
+		k := "functype:" + n.Obj().Pkg().Path() + "." + n.Obj().Name()
+		return fx.e.contracts[k], k
+	}
+	// a function stored in a struct field: contract `funcfield T.f`
+	if u, ok := cc.Value.(*ssa.UnOp); ok {
+		if fa, ok := u.X.(*ssa.FieldAddr); ok {
+			if nt, ok := unalias(elemOf(fa.X.Type())).(*types.Named); ok && nt.Obj().Pkg() != nil {
+				if st, ok := nt.Underlying().(*types.Struct); ok {
+					k := "funcfield:" + nt.Obj().Pkg().Path() + "." + nt.Origin().Obj().Name() + "." + st.Field(fa.Field).Name()
+					return fx.e.contracts[k], k
+				}
+			}
+		}
 	}
 	return nil, "dynamic call"
 }
@@ -55,6 +67,14 @@ type modTarget struct {
 // calleeEnv binds the callee's parameter names to actual arguments
 func (fx *FnExec) calleeEnv(con *Contract, recv *Val, args []Val, heap, old *Heap, results []Val) *Env {
 	env := &Env{fx: fx, names: map[string]Val{}, heap: heap, old: old, results: results}
+	if con.FuncT != nil {
+		env.pkg = fx.e.tpkgs[con.PkgPath]
+		for i, n := range con.Params {
+			if i < len(args) && n != "" && n != "_" {
+				env.names[n] = args[i]
+			}
+		}
+	}
 	if con.Obj != nil {
 		env.pkg = con.Obj.Pkg()
 		sig := con.Obj.Type().(*types.Signature)
@@ -500,6 +520,9 @@ func (fx *FnExec) applyContract(con *Contract, key string, recv *Val, args []Val
 				fx.heapSet(&fx.cur, n, srt, sSto(hv, t.idx, fx.c.fresh("mod", es)))
 			}
 		}
+		if pn := con.Flags["invokes"]; pn != "" && fx.cur.epoch == old.epoch {
+			fx.invokedClosureMods(env0, pn)
+		}
 		fx.havocVar(&fx.cur, "$alloc")
 		fx.assume(sLe(oldAlloc, fx.heapVar(&fx.cur, "$alloc", "Int")))
 	}
@@ -509,6 +532,9 @@ func (fx *FnExec) applyContract(con *Contract, key string, recv *Val, args []Val
 	results := splitResults(fx, result, resT)
 	env1 := fx.calleeEnv(con, recv, args, &fx.cur, &old, results)
 	for _, en := range con.Ens {
+		if en.Kind == "lensures" {
+			continue
+		}
 		t, err := env1.evalBool(en.Text)
 		if err != nil {
 			return Val{}, fmt.Errorf("%s:%d: %v", en.File, en.Line, err)
@@ -685,6 +711,7 @@ func (fx *FnExec) ret(x *ssa.Return) error {
 		results = append(results, fx.plain(fx.val(r)))
 	}
 	fx.retBlocks++
+	fx.obls = append(fx.obls, &Obligation{Name: displayKey(fx.key) + fmt.Sprintf("/cover#ret%d", fx.retOrdinal(x)), Class: "cover", Fn: fx.key, Goal: sNot(fx.curReach), Upto: fx.c.mark(), Pos: fx.pos(x.Pos()), Text: "return is reachable under the contract's assumptions", fx: fx, Expect: "sat"})
 	if fx.errflow {
 		fx.errflowAtReturn(results, x)
 	}
@@ -700,6 +727,9 @@ func (fx *FnExec) ret(x *ssa.Return) error {
 			env := fx.specEnv(&fx.cur, &fx.entry, results)
 			t, err := env.evalBool(en.Text)
 			if err != nil {
+				if en.Kind == "lensures" && strings.Contains(err.Error(), "unknown identifier") {
+					continue // mentions a local that is not defined at this return
+				}
 				return fmt.Errorf("%s:%d: %v", en.File, en.Line, err)
 			}
 			lab := en.Label
@@ -747,6 +777,73 @@ func (fx *FnExec) retOrdinal(x *ssa.Return) int {
 	return n
 }
 
+// modTargetsByName resolves the function's own modifies clause in the entry state
+func (fx *FnExec) modTargetsByName(con *Contract) (map[string][]string, bool, error) {
+	if fx.modCache != nil && fx.modCacheCon == con {
+		return fx.modCache, fx.modCacheAll, nil
+	}
+	env := fx.specEnv(&fx.entry, nil, nil)
+	byName := map[string][]string{} // heap var -> allowed indices ("" = all)
+	all := false
+	for _, m := range con.Mod {
+		ts, a, err := fx.resolveMod(env, m)
+		if err != nil {
+			return nil, false, fmt.Errorf("%s:%d: %v", con.File, con.Line, err)
+		}
+		if a {
+			all = true
+			break
+		}
+		for _, t := range ts {
+			for _, n := range t.names {
+				byName[n] = append(byName[n], t.idx)
+			}
+		}
+	}
+	fx.modCache, fx.modCacheAll, fx.modCacheCon = byName, all, con
+	return byName, all, nil
+}
+
+// frameFact: "heap variable n, in state h, agrees with the entry state outside the modifies set"
+// returns "" when the variable may change arbitrarily
+func (fx *FnExec) frameFact(n string, h *Heap, byName map[string][]string) string {
+	srt := fx.e.heapSort[n]
+	curT := fx.heapVar(h, n, srt)
+	entT := fx.heapVar(&fx.entry, n, srt)
+	if curT == entT {
+		return tTrue
+	}
+	allowed := byName[n]
+	for _, a := range allowed {
+		if a == "" {
+			return ""
+		}
+	}
+	if strings.HasPrefix(srt, "(Array Int ") && !strings.HasPrefix(n, "G.") {
+		fx.c.nfresh++
+		q := fmt.Sprintf("q!r!%d", fx.c.nfresh)
+		conds := []string{}
+		if !strings.HasPrefix(n, "ghost.") {
+			conds = append(conds, sLt(q, fx.allocName))
+		}
+		for _, a := range allowed {
+			conds = append(conds, sNot(sEq(q, a)))
+		}
+		return fmt.Sprintf("(forall ((%s Int)) (! %s :pattern ((select %s %s))))", q, sImp(sAnd(conds...), sEq(sSel(curT, q), sSel(entT, q))), curT, q)
+	}
+	return sEq(curT, entT)
+}
+
+func (fx *FnExec) frameContract() *Contract {
+	if fx.con != nil && !fx.con.IsIface && fx.con.HasMod && !fx.con.ModAll {
+		return fx.con
+	}
+	if fx.iface != nil && fx.iface.HasMod && !fx.iface.ModAll {
+		return fx.iface
+	}
+	return nil
+}
+
 // frame: every heap variable that differs from the entry state must be covered by the modifies clause
 func (fx *FnExec) frame(con *Contract, x *ssa.Return) error {
 	if con.ModAll {
@@ -763,64 +860,73 @@ func (fx *FnExec) frame(con *Contract, x *ssa.Return) error {
 		fx.oblige("frame", "whole-heap"+lab, tFalse, "a callee without a frame was called, but the contract has a modifies clause", x.Pos())
 		return nil
 	}
-	env := fx.specEnv(&fx.entry, nil, nil)
-	byName := map[string][]string{} // heap var -> allowed indices ("" = all)
-	for _, m := range con.Mod {
-		ts, all, err := fx.resolveMod(env, m)
-		if err != nil {
-			return fmt.Errorf("%s:%d: %v", con.File, con.Line, err)
-		}
-		if all {
-			return nil
-		}
-		for _, t := range ts {
-			for _, n := range t.names {
-				byName[n] = append(byName[n], t.idx)
-			}
-		}
+	byName, all, err := fx.modTargetsByName(con)
+	if err != nil {
+		return err
 	}
-	alloc0 := fx.heapVar(&fx.entry, "$alloc", "Int")
+	if all {
+		return nil
+	}
 	var names []string
 	for n := range fx.cur.vers {
 		names = append(names, n)
 	}
 	sort.Strings(names)
 	for _, n := range names {
-		if n == "$alloc" {
+		if n == "$alloc" || n == "$fail" {
 			continue
 		}
-		srt := fx.e.heapSort[n]
-		curT := fx.cur.vers[n]
-		entT := fx.heapVar(&fx.entry, n, srt)
-		if curT == entT {
+		goal := fx.frameFact(n, &fx.cur, byName)
+		if goal == "" || goal == tTrue {
 			continue
-		}
-		allowed := byName[n]
-		whole := false
-		for _, a := range allowed {
-			if a == "" {
-				whole = true
-			}
-		}
-		if whole {
-			continue
-		}
-		var goal string
-		if strings.HasPrefix(srt, "(Array Int ") && !strings.HasPrefix(n, "G.") {
-			fx.c.nfresh++
-			q := fmt.Sprintf("q!r!%d", fx.c.nfresh)
-			conds := []string{}
-			if !strings.HasPrefix(n, "ghost.") {
-				conds = append(conds, sLt(q, alloc0))
-			}
-			for _, a := range allowed {
-				conds = append(conds, sNot(sEq(q, a)))
-			}
-			goal = fmt.Sprintf("(forall ((%s Int)) %s)", q, sImp(sAnd(conds...), sEq(sSel(curT, q), sSel(entT, q))))
-		} else {
-			goal = sEq(curT, entT)
 		}
 		fx.oblige("frame", n+lab, goal, "only the locations named in `modifies` change: "+n, x.Pos())
 	}
 	return nil
+}
+
+// invokedClosureMods: the callee calls the function value bound to parameter pn (possibly many times);
+// its effect on memory is the closure's own modifies clause, or everything if it has none.
+func (fx *FnExec) invokedClosureMods(env0 *Env, pn string) {
+	av, ok := env0.names[pn]
+	if !ok || av.Fn == nil {
+		fx.havocAll(&fx.cur)
+		return
+	}
+	ck := keyOfFunction(av.Fn.Fn)
+	ccon := fx.e.contracts[ck]
+	if ccon == nil || !ccon.HasMod || ccon.ModAll {
+		fx.uncontracted[ck] = true
+		fx.havocAll(&fx.cur)
+		return
+	}
+	fx.usedContracts[ck] = true
+	cenv := &Env{fx: fx, names: map[string]Val{}, heap: &fx.cur}
+	if av.Fn.Fn.Pkg != nil {
+		cenv.pkg = av.Fn.Fn.Pkg.Pkg
+	}
+	for i, fv := range av.Fn.Fn.FreeVars {
+		if i < len(av.Fn.Bindings) {
+			cenv.names[fv.Name()] = av.Fn.Bindings[i]
+		}
+	}
+	for _, m := range ccon.Mod {
+		ts, all, err := fx.resolveMod(cenv, m)
+		if err != nil || all {
+			fx.havocAll(&fx.cur)
+			return
+		}
+		for _, t := range ts {
+			for _, n := range t.names {
+				if t.idx == "" {
+					fx.havocVar(&fx.cur, n)
+					continue
+				}
+				srt := fx.e.heapSort[n]
+				es := strings.TrimSuffix(strings.TrimPrefix(srt, "(Array Int "), ")")
+				hv := fx.heapVar(&fx.cur, n, srt)
+				fx.heapSet(&fx.cur, n, srt, sSto(hv, t.idx, fx.c.fresh("mod", es)))
+			}
+		}
+	}
 }
